@@ -136,8 +136,8 @@ class GlomError(Exception):
         # defined in pure-python as well as C
         exc_type = type(exc)
         bases = (GlomError,) if issubclass(GlomError, exc_type) else (GlomError, exc_type)
-        exc_wrapper_type = type(f"GlomError.wrap({exc_type.__name__})", bases, {})
         try:
+            exc_wrapper_type = type(f"GlomError.wrap({exc_type.__name__})", bases, {})
             wrapper = exc_wrapper_type(*exc.args)
             wrapper.__wrapped = exc
             return wrapper
